@@ -25,3 +25,14 @@ Definition compute_ok (c : compute_case) : bool :=
   let '(shape, a, vals, minv, cs, (eo, (el, es))) := c in
   let '(o, (l, s)) := compute_view shape a vals minv cs in
   zl_eqb o eo && zl_eqb l el && sview_eqb s es.
+
+(* ---- navigation (C02): (forest as observed, expected nav view, expected sorted leaf ids, len) *)
+Definition nav_t := list (Z * (Z * (Z * list Z))).
+Definition nav_eqb : nav_t -> nav_t -> bool :=
+  list_eqb (pair_eqb Z.eqb (pair_eqb Z.eqb (pair_eqb Z.eqb zl_eqb))).
+Definition nav_case : Type := list tree * (nav_t * (list Z * Z)).
+Definition nav_ok (c : nav_case) : bool :=
+  let '(f, (en, (el, elen))) := c in
+  nav_eqb (nav_view f) en &&
+  zl_eqb (sort_by (fun x => x) (map tid (leaves_of f))) el &&
+  (zlen (fnodes f) =? elen).
